@@ -109,8 +109,13 @@ func (e *Engine) VerifyFunction(fn *ssa.Function, fc *FuncContract) (vc *VC) {
 	if fc.Has("mergeexits") {
 		fr.mergeExits()
 	}
-	for _, ex := range fr.exits {
+	for k, ex := range fr.exits {
 		exitPCs = append(exitPCs, ex.pc)
+		if len(fr.exits) > 1 && len(fr.exits) <= 80 {
+			ec := vc.oblige("cover", fmt.Sprintf("%s/cover/exit", key), fc.Tags, ex.pc, True, ex.pos, fmt.Sprintf("return #%d is reachable", k+1))
+			ec.Cover = true
+			ec.ExitCover = true
+		}
 		env := fr.contractEnv(ex.st, ex.pc)
 		var res Val
 		var rt types.Type
